@@ -82,7 +82,7 @@ func main() {
 			for _, k := range []string{"archives_verified", "gap.cases_200", "gap.bursts_effective", "gapreg.cases_200", "gapreg.empty_key_archives",
 				"conc.archives_with_concurrent_append", "conc.runs", "rate.decisive_bursts", "rate.staggered_on_schedule", "rate.held_on_schedule", "rate.status_200", "rate.status_429",
 				"verified.reports", "verified.authorizations", "verified.stats_records", "verified.entries", "prefix_checks_after_quiescence", "privkey_scans",
-				"hunt.archives", "statsappend.chased_requests"} {
+				"hunt.archives", "statsappend.chased_requests", "tornstart.started", "tornstart.archives"} {
 				c.Require(k, 1)
 			}
 			for g := 1; g <= 6; g++ {
@@ -92,6 +92,9 @@ func main() {
 				c.Require("gap.effective."+bu, 6)
 			}
 			c.Require("gapreg.effective", 4)
+			if c.Tier == "thorough" {
+				c.Require("bigfile.archives_checked", 1)
+			}
 			c.Require("conc.rotations", 1)
 			// a few concurrent runs lost to an overloaded machine do not change what the
 			// others showed; many lost runs do
@@ -147,6 +150,13 @@ func plan(tier string, seed int64) []run.Batch {
 		add(run.Batch{Kind: "statsappend", N: 6, TimeoutS: 110})
 		add(run.Batch{Kind: "hunt", N: 18, TimeoutS: 110})
 	}
+	for i := 0; i < reps; i++ {
+		add(run.Batch{Kind: "tornstart", N: 10, TimeoutS: 110})
+	}
+	if tier == "thorough" {
+		// one public file above 1 GiB (needs ~1.2 GB of scratch disk and ~3 GB of memory for a minute)
+		add(run.Batch{Kind: "bigfile", N: 1, TimeoutS: 300})
+	}
 	for i := 0; i < ratePlain; i++ {
 		add(run.Batch{Kind: "rate", N: 14, TimeoutS: 110})
 	}
@@ -170,6 +180,10 @@ func child(b run.Batch, r *ev.Result) {
 		childStatsAppend(b, r)
 	case "hunt":
 		childHunt(b, r)
+	case "tornstart":
+		childTornStart(b, r)
+	case "bigfile":
+		childBigFile(b, r)
 	default:
 		r.Inconc("unknown batch kind " + b.Kind)
 	}
@@ -1787,6 +1801,354 @@ func childHunt(b run.Batch, r *ev.Result) {
 		r.Note("close: %v", err)
 	}
 	w.v.prefixCheck(w.infos, dir, "after_quiescence")
+}
+
+// ---------------------------------------------------------------- (d) start on a directory with a torn tail
+
+// childTornStart: the server is stopped, 1..recordLen-1 bytes of a valid next
+// record are appended to one public file (what a crash or a short write in the
+// middle of an append leaves behind), the server is started again. The
+// property says nothing about whether it must start; IF it starts, new
+// devices and reports are added and every archive has to satisfy the archive
+// oracles. A control episode without a tail must start.
+func childTornStart(b run.Batch, r *ev.Result) {
+	rng := rand.New(rand.NewSource(b.Seed))
+	drv.GateRotation(true)
+	drv.GateImpact(true)
+	targets := []string{"none", "equipment-reports.dat", "equipment-authorizations.dat", "allDeviceStats.dat"}
+	for k := 0; k < b.N; k++ {
+		target := targets[k%len(targets)]
+		if k < 2 {
+			target = []string{"none", "equipment-reports.dat"}[k]
+		}
+		drv.SetClock(500 + uint32(rng.Intn(300)))
+		dir := filepath.Join(b.Dir, fmt.Sprintf("srv-%d", k))
+		func() {
+			defer os.RemoveAll(dir)
+			dw, err := newWorld(dir, rng)
+			if err != nil {
+				r.Inconc("cannot start world: " + err.Error())
+				return
+			}
+			up := true
+			defer func() {
+				if up {
+					dw.Close()
+				}
+			}()
+			w := &gapWorld{World: dw, b: b, rng: rng, r: r, v: newVerifier(b, r), nextID: uint32(10 + rng.Intn(100)), priv: dw.Key.Priv}
+			var devs []*drv.Dev
+			for i := 0; i < 2+rng.Intn(3); i++ {
+				d, _, err := w.newDevice(1 + rng.Intn(4))
+				if err != nil {
+					r.Inconc(err.Error())
+					return
+				}
+				devs = append(devs, d)
+			}
+			if target == "allDeviceStats.dat" || rng.Intn(2) == 0 {
+				if n := w.rotate(); n < 0 {
+					r.Count("tornstart.rotation_step_watchdog", 1)
+					return
+				} else if n != 1 {
+					r.Inconc(fmt.Sprintf("tornstart: set-up rotation did not happen (%d)", n))
+					return
+				}
+				for _, d := range devs {
+					w.Inject(d.Report(pickSlot(rng, drv.Clock(), w.offset()), uint64(2+rng.Intn(1000))).Bytes())
+				}
+			}
+			if err := w.Close(); err != nil {
+				r.Note("close: %v", err)
+			}
+			up = false
+			// the tail: the first bytes of a record that would have been valid
+			var tail []byte
+			switch target {
+			case "equipment-reports.dat":
+				d := devs[rng.Intn(len(devs))]
+				tail = d.Report(drv.Clock()+1+uint32(rng.Intn(50)), uint64(2+rng.Intn(1000))).Bytes()[:1+rng.Intn(reportLen-1)]
+			case "equipment-authorizations.dat":
+				tail = mkAuth(rng, w.GCA, 700000+uint32(rng.Intn(1000)), refenc.GenKey(rng).Pub).Bytes()[:1+rng.Intn(authLen-1)]
+			case "allDeviceStats.dat":
+				cur := w.ReadFile(target)
+				recs, err := refenc.ParseStatsStream(cur)
+				if err != nil || len(recs) == 0 {
+					r.Inconc("tornstart: no statistics record to tear")
+					return
+				}
+				last := recs[len(recs)-1].Bytes()
+				tail = last[:1+rng.Intn(len(last)-1)]
+			}
+			if tail != nil {
+				f, err := os.OpenFile(filepath.Join(dir, target), os.O_APPEND|os.O_WRONLY, 0644)
+				if err != nil {
+					r.Inconc(err.Error())
+					return
+				}
+				f.Write(tail)
+				f.Close()
+			}
+			run.Op("tornstart episode %d target=%s tail=%d bytes", k, target, len(tail))
+			r.Count("tornstart.episodes", 1)
+			if err := w.Start(); err != nil {
+				r.Count("tornstart.refused_to_start."+target, 1)
+				if target == "none" {
+					r.Inconc("control: server does not restart on an untouched directory: " + err.Error())
+				}
+				return
+			}
+			up = true
+			r.Count("tornstart.started", 1)
+			r.Count("tornstart.started."+target, 1)
+			w.priv = [32]byte(w.S.VerifPrivateKey())
+			w.f = newFetcher(w.HTTP)
+			defer w.f.close()
+			ctx := map[string]interface{}{"kind": "tornstart", "episode": k, "file": target, "tail_bytes": len(tail)}
+			var infos []*archInfo
+			for round := 0; round < 2; round++ {
+				if round == 1 {
+					// new facts behind the tail
+					if _, _, err := w.newDevice(1 + rng.Intn(3)); err != nil {
+						r.Count("tornstart.new_device_refused", 1)
+					}
+					for _, d := range devs {
+						w.Inject(d.Report(pickSlot(rng, drv.Clock(), w.offset()), uint64(2+rng.Intn(1000))).Bytes())
+					}
+				}
+				st, body, err := w.getPaced()
+				if err != nil || st != 200 {
+					r.Count(fmt.Sprintf("tornstart.status_%d", st), 1)
+					continue
+				}
+				r.Count("tornstart.archives", 1)
+				info := w.v.verify(body, w.priv, ctx)
+				infos = append(infos, info)
+				if info != nil && tail != nil {
+					r.Nontrivial(fmt.Sprintf("tornstart/%d/%d/%d/%v", b.Seed, k, round, lensOf(info)))
+				}
+			}
+			judgeRate(w.v, w.f, "tornstart")
+			if err := w.Close(); err != nil {
+				r.Note("close: %v", err)
+			}
+			up = false
+			w.v.prefixCheck(infos, dir, "after_quiescence")
+		}()
+		if r.NumViolations() > 20 {
+			return
+		}
+	}
+}
+
+// ---------------------------------------------------------------- (e) a public file above 1 GiB (thorough only)
+
+// childBigFile grows equipment-reports.dat beyond 1 GiB with blocks of valid
+// reports (written straight to the file while no writer is active; the
+// archive handler only ever reads the file), downloads one archive and
+// stream-checks the entry: length, record alignment, every record verifies
+// under its device's archived authorization, prefix of the file on disk.
+func childBigFile(b run.Batch, r *ev.Result) {
+	rng := rand.New(rand.NewSource(b.Seed))
+	drv.SetClock(500 + uint32(rng.Intn(300)))
+	drv.GateRotation(true)
+	drv.GateImpact(true)
+	dir := filepath.Join(b.Dir, "srv")
+	defer os.RemoveAll(dir)
+	dw, err := newWorld(dir, rng)
+	if err != nil {
+		r.Inconc("cannot start world: " + err.Error())
+		return
+	}
+	up := true
+	defer func() {
+		if up {
+			dw.Close()
+		}
+	}()
+	w := &gapWorld{World: dw, b: b, rng: rng, r: r, v: newVerifier(b, r), nextID: uint32(10 + rng.Intn(100)), priv: dw.Key.Priv}
+	var block []byte
+	// 200 reports = 16 000 bytes: the repetition lies inside deflate's 32 KB window, so the
+	// archive stays small although signatures are incompressible
+	for i := 0; i < 4; i++ {
+		d, _, err := w.newDevice(2)
+		if err != nil {
+			r.Inconc(err.Error())
+			return
+		}
+		for s := 0; s < 50; s++ {
+			block = append(block, d.Report(uint32(1000+s), uint64(2+rng.Intn(100000))).Bytes()...)
+		}
+	}
+	target := int64(1<<30) + int64(20+rng.Intn(60))<<20 + int64(rng.Intn(1000))*reportLen
+	path := filepath.Join(dir, "equipment-reports.dat")
+	f, err := os.OpenFile(path, os.O_APPEND|os.O_WRONLY, 0644)
+	if err != nil {
+		r.Inconc(err.Error())
+		return
+	}
+	big := bytes.Repeat(block, 1000) // 16 MB
+	st0, _ := f.Stat()
+	for size := st0.Size(); size < target; size += int64(len(big)) {
+		if _, err := f.Write(big); err != nil {
+			f.Close()
+			r.Inconc("cannot grow the reports file (disk?): " + err.Error())
+			return
+		}
+	}
+	f.Close()
+	big = nil
+	st1, _ := os.Stat(path)
+	run.Op("bigfile: equipment-reports.dat grown to %d bytes", st1.Size())
+	r.Max("max.bigfile_bytes", st1.Size())
+	hc := &http.Client{Timeout: 4 * time.Minute}
+	resp, err := hc.Get(fmt.Sprintf("http://127.0.0.1:%d/api/v1/archive", w.HTTP))
+	if err != nil {
+		r.Inconc("bigfile: archive request failed: " + err.Error())
+		return
+	}
+	body, err := io.ReadAll(resp.Body)
+	resp.Body.Close()
+	if err != nil || resp.StatusCode != 200 {
+		r.Inconc(fmt.Sprintf("bigfile: archive answered %d %v", resp.StatusCode, err))
+		return
+	}
+	if err := w.Close(); err != nil {
+		r.Note("close: %v", err)
+	}
+	up = false
+	ctx := map[string]interface{}{"kind": "bigfile", "file_bytes": st1.Size()}
+	w.v.verifyBig(body, w.priv, path, ctx)
+	os.Remove(path)
+}
+
+// verifyBig judges an archive whose equipment-reports.dat entry is too large
+// to hold in memory several times: everything else goes through verify (on a
+// copy of the archive in which that entry is empty), the reports entry is
+// streamed.
+func (v *verifier) verifyBig(body []byte, priv [32]byte, diskPath string, ctx map[string]interface{}) {
+	r := v.r
+	const name = "equipment-reports.dat"
+	zr, err := zip.NewReader(bytes.NewReader(body), int64(len(body)))
+	if err != nil {
+		r.Violationf("archive-not-a-zip", v.replay(ctx), "200 response of %d bytes is not a zip archive: %v", len(body), err)
+		return
+	}
+	if containsKeyMaterial(body, priv) {
+		r.Violationf("private-key-leak", v.replay(ctx, "where", "raw zip bytes"), "the raw zip bytes contain the server's private key")
+	}
+	var small bytes.Buffer
+	zw := zip.NewWriter(&small)
+	var big *zip.File
+	var auths []byte
+	for _, zf := range zr.File {
+		wr, _ := zw.Create(zf.Name)
+		if zf.Name == name && big == nil {
+			big = zf
+			continue
+		}
+		rc, err := zf.Open()
+		if err != nil {
+			r.Violationf("archive-entry-unreadable", v.replay(ctx, "entry", zf.Name), "entry %s cannot be opened: %v", zf.Name, err)
+			return
+		}
+		data, err := io.ReadAll(io.LimitReader(rc, 1<<28))
+		rc.Close()
+		if err != nil {
+			r.Violationf("archive-entry-unreadable", v.replay(ctx, "entry", zf.Name), "entry %s cannot be decompressed: %v", zf.Name, err)
+			return
+		}
+		wr.Write(data)
+		if zf.Name == "equipment-authorizations.dat" {
+			auths = data
+		}
+	}
+	zw.Close()
+	v.verify(small.Bytes(), priv, ctx) // entry set, the other entries, their closure
+	if big == nil {
+		return // verify has reported the missing entry
+	}
+	first := map[uint32][32]byte{}
+	for i := 0; i+authLen <= len(auths); i += authLen {
+		if a, err := refenc.ParseAuth(auths[i : i+authLen]); err == nil {
+			if _, ok := first[a.ID]; !ok {
+				first[a.ID] = a.Pub
+			}
+		}
+	}
+	rc, err := big.Open()
+	if err != nil {
+		r.Violationf("archive-entry-unreadable", v.replay(ctx, "entry", name), "entry %s cannot be opened: %v", name, err)
+		return
+	}
+	defer rc.Close()
+	disk, err := os.Open(diskPath)
+	if err != nil {
+		r.Inconc("bigfile: cannot open the file on disk: " + err.Error())
+		return
+	}
+	defer disk.Close()
+	okRec := map[[reportLen]byte]bool{}
+	buf := make([]byte, reportLen*4096)
+	dbuf := make([]byte, len(buf))
+	var total int64
+	var carry []byte // last 31 bytes of the previous chunk, for the key scan
+	bad := 0
+	for {
+		n, rerr := io.ReadFull(rc, buf)
+		chunk := buf[:n]
+		if n > 0 {
+			if m, _ := io.ReadFull(disk, dbuf[:n]); m < n || !bytes.Equal(dbuf[:n], chunk) {
+				r.Violationf("entry-not-a-prefix:"+name, v.replay(ctx, "at", total), "archived %s differs from the file on disk within the %d bytes after offset %d", name, n, total)
+				return
+			}
+			if containsKeyMaterial(append(carry, chunk...), priv) {
+				r.Violationf("private-key-leak", v.replay(ctx, "where", name), "entry %s contains the server's private key", name)
+			}
+			if n >= 31 {
+				carry = append(carry[:0], chunk[n-31:]...)
+			}
+			for i := 0; i+reportLen <= n && bad < 5; i += reportLen {
+				key := [reportLen]byte(chunk[i : i+reportLen])
+				if okRec[key] {
+					continue
+				}
+				rep, _ := refenc.ParseReport(chunk[i : i+reportLen])
+				k, ok := first[rep.ID]
+				if !ok {
+					bad++
+					r.Violationf("dangling-report", v.replay(ctx, "offset", total+int64(i)), "report at offset %d names device %d, which has no authorization in the same archive", total+int64(i), rep.ID)
+				} else if !v.verifySig(k, rep.SigningBytes(), rep.Sig) {
+					bad++
+					r.Violationf("report-unverifiable", v.replay(ctx, "offset", total+int64(i)), "report at offset %d of device %d does not verify under the key of the first archived authorization for that id", total+int64(i), rep.ID)
+				} else {
+					okRec[key] = true
+				}
+			}
+			total += int64(n)
+			r.Count("verified.reports", int64(n/reportLen))
+		}
+		if rerr != nil {
+			if rerr != io.EOF && rerr != io.ErrUnexpectedEOF {
+				r.Violationf("archive-entry-unreadable", v.replay(ctx, "entry", name), "entry %s cannot be decompressed: %v", name, rerr)
+				return
+			}
+			break
+		}
+	}
+	r.Max("max.bigfile_entry_bytes", total)
+	r.Count("bigfile.archives_checked", 1)
+	r.Count("prefix_checks_after_quiescence", 1)
+	if total%reportLen != 0 {
+		key := "unaligned-entry:" + name
+		if total%4096 == 0 {
+			key = "unaligned-entry-at-page-multiple:" + name
+		}
+		st, _ := disk.Stat()
+		r.Violationf(key, v.replay(ctx, "entry_len", total, "file_len", st.Size()), "%s has %d bytes, not a multiple of %d: the archive ends inside a record (file on disk: %d bytes)", name, total, reportLen, st.Size())
+	}
+	r.Nontrivial(fmt.Sprintf("bigfile/%d/%d", v.batch.Seed, total))
+	r.Sample(map[string]interface{}{"kind": "bigfile", "entry_bytes": total, "zip_bytes": len(body)})
 }
 
 // ---------------------------------------------------------------- (c) rate limit
